@@ -401,7 +401,14 @@ mod inner {
         }
 
         pub fn push(&mut self, value: f64) {
-            self.inner.push(value);
+            // Entries are non-negative. The compact list stores anything
+            // else as a zero so the same is done here to keep the results of
+            // both lists equal.
+            if value.to_bits() > 0 && value.is_sign_positive() {
+                self.inner.push(value);
+            } else {
+                self.inner.push(0.0);
+            }
         }
 
         pub fn sort_desc(&mut self) {
